@@ -35,6 +35,13 @@ def run():
         for kind, why in probs or []:
             rel = os.path.relpath(p, corpus.REPO)
             c.findings.append(Finding("bounded", "relayout:" + kind, "%s: %s" % (rel, why), {"file": p, "relayout": kind, "observed": why}, rel))
+    # a comment owns its whole line: the reader must not cut lines at VT / FF / NEL / LS (the tail of a comment would be read as code)
+    from bounded import readfile
+
+    total, why = readfile.exhaustive(3 if c.tier == "quick" else 5, corpus.pmap)
+    c.bounded["read_vhdlfile"] = {"evaluations": total, "distinct_nontrivial": total, "exhaustive": True, "rule": "every short string over line-separator-like characters written as UTF-8 / Latin-1 and read back by the real read_vhdlfile; expected = split at LF/CRLF/CR only"}
+    if why:
+        c.findings.append(Finding("bounded", "read_vhdlfile", why, {"function": "vsg.vhdlFile.utils.read_vhdlfile", "observed": why}, why[:60]))
     if c.tier == "thorough":
         # the mutants of this file also hit the splice (update) and the region helpers: every verified function of contracts/vhdlfile.py
         run_selftest(c, ["mutants_vhdlfile.py"], lambda eng: sorted(q for q, ct in eng.contracts.items() if ct.get("_file") == "vhdlfile.py" and not ct.get("trusted") and ".classify." not in q))
